@@ -257,6 +257,12 @@ def directed_cases(pid, start):
             out.append(C(0, ("mem", 1, ["r"], inh, cst), True, ["r"], [11]))
             out.append(C(0, ("hide", -1, ("mem", 2, ["v"], inh, cst)), True, ["v", "c"], [11, 22]))
             out.append(C(0, ("bind", -1, ("mem", 3, ["c", "v"], inh, cst), [("v", 44)]), True, ["c"], [11]))
+    # two-getter compose with getters that take their argument by value: called with temporaries (rvalue
+    # route) a getter must not see an argument the other getter has moved from
+    for g1, g2 in ((("mem", 0, ["v"], 0, 0), ("mem", 1, ["v"], 0, 0)), (("mem", 2, ["v"], 1, 1), ("leaf", 6, 0)),
+                   (("bind", -1, ("mem", 1, ["v", "v"], 0, 0), [("v", 31)]), ("mem", 3, ["c"], 0, 0))):
+        out.append(C(0, ("c2", ("leaf", 5, 0), g1, g2), True, ["v"], [11]))
+        out.append(C(0, ("hide", -1, ("c2", ("leaf", 5, 0), g1, g2)), True, ["v", "v"], [11, 22]))
     # every adaptor under a deducing adaptor with a reference parameter (F2)
     inner = [("hr", leaf), ("retype", leaf, [("O", False)], True), ("br", leaf, 123), ("ec", leaf, 1500),
              ("c2", ("leaf", 2, 0), leaf, ("leaf", 3, 0)), ("c1", ("leaf", 2, 0), leaf), ("rr", leaf), ("to", leaf, [2]),
